@@ -194,7 +194,22 @@ def insert_at_anchor(body, where, anchor, nth, text):
     for _ in range(nth):
         pos = body.find(anchor, pos + 1)
         if pos < 0:
+            break
+    if pos < 0:
+        # exact anchor text is gone (the anchored statement was edited): fall back to the most similar line, so that the
+        # verifier -- not the extractor -- decides about the edited code
+        import difflib
+        best, best_pos, off = 0.0, -1, 0
+        for ln in body.split('\n'):
+            r = difflib.SequenceMatcher(None, ln.strip(), anchor.strip()).ratio() if len(ln.strip()) >= len(anchor.strip()) * 0.5 else 0.0
+            if anchor.strip()[:12] and ln.strip().startswith(anchor.strip()[:12]):
+                r = max(r, 0.6)
+            if r > best:
+                best, best_pos = r, off + (len(ln) - len(ln.lstrip()))
+            off += len(ln) + 1
+        if best < 0.55 or nth != 1:
             raise ExtractError('hint anchor not found: %r' % anchor)
+        pos = best_pos
     if where == 'before':
         ls = body.rfind('\n', 0, pos) + 1
         return body[:ls] + text + '\n' + body[ls:]
@@ -391,6 +406,9 @@ def assemble(unit_path, repo=REPO):
                 text = text.replace(old, new)
             if derive:
                 text = '#[%s]\n' % derive[0] + text
+            if 'pubfields' in rest:
+                # field visibility has no runtime meaning; contracts of pub fns must be able to name the fields
+                text = re.sub(r'(?m)^(\s*)(?!pub\b)([a-z_][a-z0-9_]*\s*:)', r'\1pub \2', text)
             asm.types.append('%s %s %s' % (file, kind, name))
             asm.add(text)
             i += 1
